@@ -27,7 +27,7 @@ def mnemo_cond(i):
 
 def opers(i, n=0):
     L = []
-    for pos, o in enumerate(i.operands[n:]):
+    for pos, o in enumerate(i.operands[n:], n):
         if o._is_reg:
             L.append(opreg(pos))
         elif o._is_cst:
@@ -48,8 +48,8 @@ def listjoin(*args):
 
 
 def cond_opers(i):
-    L = [(Token.Literal, CONDITION[i.operands[0]])]
-    for pos, o in enumerate(i.operands[1:]):
+    L = [lambda i: [(Token.Literal, CONDITION[i.operands[0]][0])]]
+    for pos, o in enumerate(i.operands[1:], 1):
         if o._is_reg:
             L.append(opreg(pos))
         elif o._is_cst:
